@@ -628,6 +628,18 @@ func loopStoresTo(l *Loop, root *ssa.Alloc) bool {
 	return false
 }
 
+// deferTakes tells whether some deferred call of fn receives the cell.
+func deferTakes(fn *ssa.Function, root *ssa.Alloc) bool {
+	for _, b := range fn.Blocks {
+		for _, in := range b.Instrs {
+			if d, ok := in.(*ssa.Defer); ok && callTakes(d, root) {
+				return true
+			}
+		}
+	}
+	return false
+}
+
 // callTakes tells whether the call receives the cell (or an address inside it) as receiver,
 // argument or closure binding.
 func callTakes(call ssa.CallInstruction, root *ssa.Alloc) bool {
@@ -702,6 +714,11 @@ func (c *Ctx) lastStore(load *ssa.UnOp, addr string, root *ssa.Alloc) *ssa.Store
 			}
 			// a call that receives (a pointer into) the cell may write it
 			if call, ok := instrs[k].(ssa.CallInstruction); ok && callTakes(call, root) {
+				if _, isDefer := call.(*ssa.Defer); !isDefer { // a deferred call runs at RunDefers
+					return nil
+				}
+			}
+			if _, ok := instrs[k].(*ssa.RunDefers); ok && deferTakes(lb.Parent(), root) {
 				return nil
 			}
 		}
@@ -1033,6 +1050,12 @@ func (p *Path) classifyErr(e *Term) (Outcome, *Term) {
 			if len(onPath) == 0 {
 				return Success, nil
 			}
+			// named result finalised by deferred closures that only overwrite it while it is nil:
+			// the final value is nil only if the value before the defers ran was nil.
+			if deferTakes(p.Fn, a) && deferredOnlyFillNil(p.Fn, a) {
+				last := onPath[len(onPath)-1]
+				return p.classifyErr(p.ctx.term(last.Val))
+			}
 			// accumulator: every store anywhere is cell = errors.Join(cell, ...): once non-nil, stays non-nil
 			if accumulatorCell(p.Fn, a) {
 				for _, st := range onPath {
@@ -1203,4 +1226,51 @@ func accumulatorCell(fn *ssa.Function, a *ssa.Alloc) bool {
 	}
 	check(fn, a)
 	return ok
+}
+
+
+// deferredOnlyFillNil tells whether every store to cell a made by the deferred closures of fn is
+// executed only when the cell currently holds nil (idiom: `if cerr := c.Close(); err == nil { err = cerr }`).
+func deferredOnlyFillNil(fn *ssa.Function, a *ssa.Alloc) bool {
+	ok, any := true, false
+	for _, b := range fn.Blocks {
+		for _, in := range b.Instrs {
+			d, isD := in.(*ssa.Defer)
+			if !isD {
+				continue
+			}
+			mc, isMC := d.Call.Value.(*ssa.MakeClosure)
+			if !isMC {
+				if callTakes(d, a) {
+					return false
+				}
+				continue
+			}
+			g := mc.Fn.(*ssa.Function)
+			for i, bnd := range mc.Bindings {
+				if bnd != ssa.Value(a) || i >= len(g.FreeVars) {
+					continue
+				}
+				any = true
+				fv := g.FreeVars[i]
+				ps, err := Enumerate(g)
+				if err != nil {
+					return false
+				}
+				fvName := fmt.Sprintf("fv%d", i)
+				for _, q := range ps {
+					stores := false
+					q.Instrs(func(in2 ssa.Instruction) {
+						if st, isSt := in2.(*ssa.Store); isSt && st.Addr == ssa.Value(fv) {
+							stores = true
+						}
+					})
+					if stores && !q.HasFact("eq(*"+fvName+",const(nil))", true) {
+						ok = false
+					}
+				}
+			}
+		}
+	}
+	return ok && any
 }
